@@ -65,6 +65,18 @@ func dischargeHarness(cfg *PropConfig, hr *HarnessResult, getPool func(string) *
 		_ = gs
 		batches = append(batches, &djob{mode: "batch", conj: c, batch: os})
 	}
+	// reachability is decided per split case as well: reachable if some case is
+	reachJobs := func(o *Obligation) []*djob {
+		parts := hr.splitCases()
+		if len(parts) <= 1 {
+			return []*djob{{o: o, mode: "reach", conj: base(o)}}
+		}
+		var out []*djob
+		for _, pc := range parts {
+			out = append(out, &djob{o: o, mode: "reach", conj: append(base(o), pc)})
+		}
+		return out
+	}
 	mkJobs := func(o *Obligation, forceSingle bool) []*djob {
 		var out []*djob
 		switch o.Kind {
@@ -82,7 +94,7 @@ func dischargeHarness(cfg *PropConfig, hr *HarnessResult, getPool func(string) *
 			} else {
 				out = append(out, &djob{o: o, mode: "viol", conj: v})
 			}
-			out = append(out, &djob{o: o, mode: "reach", conj: base(o)})
+			out = append(out, reachJobs(o)...)
 			for _, k := range o.known {
 				if _, listed := knownGlobal[k.ID]; !listed {
 					continue
@@ -94,7 +106,7 @@ func dischargeHarness(cfg *PropConfig, hr *HarnessResult, getPool func(string) *
 				out = append(out, &djob{o: o, mode: "viol", conj: base(o)})
 			}
 		case "reach":
-			out = append(out, &djob{o: o, mode: "reach", conj: base(o)})
+			out = append(out, reachJobs(o)...)
 		}
 		return out
 	}
@@ -298,12 +310,18 @@ func dischargeHarness(cfg *PropConfig, hr *HarnessResult, getPool func(string) *
 				o.modelLits = j.res.Model
 			}
 		case j.mode == "reach":
-			o.Reach = j.res.Verdict
-			if j.res.Verdict == "sat" {
+			switch {
+			case o.Reach == "sat":
+			case j.res.Verdict == "sat":
+				o.Reach = "sat"
+			case o.Reach == "" || o.Reach == "unsat":
+				o.Reach = j.res.Verdict
+			}
+			if j.res.Verdict == "sat" && o.reachLits == nil {
 				o.reachLits = j.res.Model
 			}
 			if o.Kind == "reach" {
-				o.Verdict = j.res.Verdict
+				o.Verdict = o.Reach
 			}
 		case strings.HasPrefix(j.mode, "known:"):
 			if o.knownRes == nil {
